@@ -117,6 +117,13 @@ def run(ctx: Ctx) -> Result:
                     want = spec_pl['signature_extensions'] + (['cA', 'cB'] if all(c in spec_ct for c in (b'A', b'B')) else [])
                     if log != want: viol(hist, idx, f'probe run consults exactly {want}', list(log)); return False
                     if repr((caller_cache, caller_contracts, caller_plugins)) != repr(snaps): viol(hist, idx, "caller's dicts unchanged", (caller_cache, caller_contracts, caller_plugins)); return False
+                    # the same registry governs every script of a run_auth_scripts list, not only the first one
+                    if all(c in spec_ct for c in (b'A', b'B')):
+                        del log[:]
+                        try: F.run_auth_scripts([probe_sig, probe_inv, probe_sig + probe_inv], {'sigfield1': b'x'})
+                        except BaseException as e: viol(hist, idx, 'run_auth_scripts returns', type(e).__name__ + str(e)); return False
+                        want3 = spec_pl['signature_extensions'] + ['cA', 'cB'] + spec_pl['signature_extensions'] + ['cA', 'cB']
+                        if log != want3: viol(hist, idx, f'a three-script authorization consults exactly {want3}', list(log)); return False
                     # the same caller dict reused for several runs (with and without its own 'timestamp'): a run that writes to its
                     # cache must neither change the caller's dict nor be visible to the next run
                     for d in (shared_ts, shared_plain):
